@@ -306,13 +306,30 @@ func (fr *Frame) backEdge(b, h *ssa.BasicBlock, e *State) {
 	if li.headState == nil {
 		return
 	}
-	for _, cl := range fr.loopClauses(li, "step") {
+	var stepish []*Clause
+	if fr.fc != nil && li.ordinal >= 0 {
+		for _, cl := range fr.fc.Clauses {
+			if (cl.Kind == "step" || cl.Kind == "steplemma") && cl.Loop == li.ordinal {
+				stepish = append(stepish, cl)
+			}
+		}
+	}
+	for _, cl := range stepish {
 		env := fr.envAt(b, e, nil)
 		env.atLatch = true
 		env.pre = li.headState
 		env.postPhis = back
+		if cl.Kind == "steplemma" {
+			// "loop N step instantiate L(args)": a lemma instance available to the step clauses after it only
+			c.assume(e.reach, c.lemmaInstance(env, cl.Src, cl.File, cl.Line))
+			continue
+		}
 		g := c.evalBool(env, cl.Expr)
-		o := c.oblige(e, "step", cl.Label, cl.Props, g, pos, fmt.Sprintf("loop %d step: %s", li.ordinal, cl.Src))
+		goal := g
+		for _, u := range cl.Using {
+			goal = implies(c.lemmaInstance(env, u, cl.File, cl.Line), goal)
+		}
+		o := c.oblige(e, "step", cl.Label, cl.Props, goal, pos, fmt.Sprintf("loop %d step: %s", li.ordinal, cl.Src))
 		if o != nil {
 			if vals, plan := fr.stepReplayValues(li, e); plan != nil {
 				plan.Clause = cl
